@@ -1,7 +1,7 @@
 """Per-property configuration of ./check (which theorems, suites, oracle, budgets)."""
 
 # model .vo files the extracted driver depends on (built before extraction)
-MODEL_VO = ["Base.vo", "GoOps.vo", "Gen/Tables.vo", "Gen/Preds.vo", "Token.vo", "VLQ.vo", "SourceMap.vo", "Lexer.vo", "Tree.vo", "Writer.vo", "PrinterLib.vo", "Gen/Printer.vo", "Compile.vo", "Parser.vo", "Registry.vo"]
+MODEL_VO = ["Base.vo", "GoOps.vo", "Gen/Tables.vo", "Gen/Preds.vo", "Token.vo", "VLQ.vo", "SourceMap.vo", "Lexer.vo", "Tree.vo", "Writer.vo", "PrinterLib.vo", "Gen/Printer.vo", "Compile.vo", "Parser.vo", "Registry.vo", "Grammar.vo"]
 
 TRUSTED_BASE = [
     "Coq 8.16.1 kernel (coqc, full .vo build; coqchk re-check in the thorough tier); vm_compute used for finite sweeps; native_compute not used",
